@@ -1,6 +1,7 @@
 import St4sd.Model.FsAtomic
 import St4sd.Model.StatusFile
 import St4sd.Model.FsConc
+import St4sd.Lemmas.C14Typed
 /-!
 Witnesses for C14: the code *before* the proposed repairs violates the full statement.  The harness
 replays the same inputs on the real code (`harness/c14.py`, `CORPUS_HISTORIES` and the traced writers).
@@ -89,5 +90,29 @@ theorem shared_tmp_truncation_leaves_hole :
       .rename ['x'] ['t']] fsOldC) ['t'] = some ['\x00', '\x00', 'c'] := by decide
 
 end Shared
+
+section Typed
+open St4sd.TypedStore
+
+/-- an update that skips the write when the loaded file `==` the new document drops an update that changes only the
+type of a value: written 3 then 3.0, read back 3 -/
+theorem pyEq_skip_drops_retyped_update :
+    runStore (writeSkip pyEq) none [.int 3, .float 3 0] = some (.int 3) ∧
+    runStore writeAlways none [.int 3, .float 3 0] = some (.float 3 0) := by decide
+
+/-- the same inside a mapping holding a sequence (`{d: [1, 0]}` then `{d: [true, 0.0]}`), and through a chain
+`0 → False → 0.0 → -0.0`: the file still holds the first value -/
+theorem pyEq_skip_drops_nested_and_chained :
+    runStore (writeSkip pyEq) none
+      [.map (.cons (.str [100]) (.cons (.seq (.cons (.int 1) (.cons (.int 0) .nil))) .nil)),
+       .map (.cons (.str [100]) (.cons (.seq (.cons (.bool true) (.cons (.float 0 0) .nil))) .nil))]
+      = some (.map (.cons (.str [100]) (.cons (.seq (.cons (.int 1) (.cons (.int 0) .nil))) .nil))) ∧
+    runStore (writeSkip pyEq) none [.int 0, .bool false, .float 0 0, .fspec 0] = some (.int 0) := by decide
+
+/-- a really different value is still stored by the skipping writer, and an identical rewrite is harmless -/
+theorem pyEq_skip_stores_different_values :
+    runStore (writeSkip pyEq) none [.int 3, .float 7 1, .float 7 1] = some (.float 7 1) := by decide
+
+end Typed
 
 end St4sd.C14.Witness
